@@ -35,9 +35,14 @@ CONFIGS = {
     "native": dict(cc="cc", cflags=["-std=gnu11", "-O2", "-g", "-DNDEBUG", "-fPIC", "-march=native"]),
     # the intermediate x86-64 micro-architecture levels: the library selects code paths on __SSE4_1__, __AVX2__,
     # __F16C__ (and a change may add others: __BMI2__, __POPCNT__ ...); pinned = none, v2 = SSE4.2/POPCNT,
-    # v3 = AVX2/BMI2/F16C/LZCNT, native = everything this CPU has (AVX-512)
+    # bmi = v2 + BMI1/BMI2/LZCNT/F16C/FMA/MOVBE without AVX2, native = everything this CPU has (AVX2 + AVX-512).
+    # An AVX2-only level (x86-64-v3) is NOT in the space: src/varintFOR.c uses _mm256_min/max_epu64 (AVX-512VL)
+    # under #if __AVX2__, so the unchanged library does not compile there (see DESIGN.md section 8).
     "v2": dict(cc="cc", cflags=["-std=gnu11", "-O2", "-g", "-DNDEBUG", "-fPIC", "-march=x86-64-v2"]),
-    "v3": dict(cc="cc", cflags=["-std=gnu11", "-O2", "-g", "-DNDEBUG", "-fPIC", "-march=x86-64-v3"]),
+    "bmi": dict(cc="cc", cflags=["-std=gnu11", "-O2", "-g", "-DNDEBUG", "-fPIC", "-march=x86-64-v2", "-mbmi", "-mbmi2",
+                                 "-mlzcnt", "-mf16c", "-mfma", "-mmovbe"]),
+    # the Release flags of the repository's CMakeLists (-O3)
+    "o3": dict(cc="cc", cflags=["-std=gnu11", "-O3", "-DNDEBUG", "-fPIC", "-mtune=native"]),
     # second, independent memory oracle
     "asan": dict(cc="clang", cflags=["-std=gnu11", "-O1", "-g", "-fsanitize=address", "-fsanitize-recover=address",
                                      "-fno-omit-frame-pointer", "-DVH_ASAN=1"], env=ASAN_ENV),
@@ -69,14 +74,14 @@ CHECKS = {}
 def scalar(prop, rule, expl, dl_quick=100, dl_thorough=1500, configs=None):
     CHECKS[prop] = dict(
         name="scalar", harness=["checks/scalar.c"], libs=LIBS_SCALAR,
-        configs=configs or {"quick": ["pinned", "debug", "asan", "native"], "thorough": ["pinned", "debug", "asan", "native", "v2", "v3"]},
-        shards={"pinned": 16, "debug": 8, "asan": 8, "native": 8, "v2": 8, "v3": 8},
+        configs=configs or {"quick": ["pinned", "debug", "asan", "native"], "thorough": ["pinned", "debug", "asan", "native", "v2", "bmi"]},
+        shards={"pinned": 16, "debug": 8, "asan": 8, "native": 8, "v2": 8, "bmi": 8},
         deadline={"quick": dl_quick, "thorough": dl_thorough},
         # exhaustive prefix [0,2^P): P=32 in the optimised builds, 28 in the slow (unoptimised / sanitised) ones
         tier_env={"quick": {"pinned": {"VERIF_PREFIX_BITS": "24"}, "debug": {"VERIF_PREFIX_BITS": "22"},
                             "asan": {"VERIF_PREFIX_BITS": "22"}, "native": {"VERIF_PREFIX_BITS": "22"}},
                   "thorough": {"debug": {"VERIF_PREFIX_BITS": "28"}, "asan": {"VERIF_PREFIX_BITS": "28"},
-                               "v2": {"VERIF_PREFIX_BITS": "28"}, "v3": {"VERIF_PREFIX_BITS": "28"}}},
+                               "v2": {"VERIF_PREFIX_BITS": "28"}, "bmi": {"VERIF_PREFIX_BITS": "28"}}},
         rule=rule, explanation=expl,
         assumptions=["reference encoders in /verif/ref are trusted (written from the documented formats)",
                      "2^64 values are covered exhaustively only below 2^P and over the stated alphabets beyond"],
@@ -95,12 +100,12 @@ scalar("C05", "all adjacent pairs (v,v+1) of the exhaustive prefix and boundary 
               "boundary alphabet, all pairs of 2- and 3-tuples over small alphabets; class = (len a, len b, first "
               "differing byte position)",
        "E-enum over pairs: sign(memcmp(enc a, enc b)) == sign(a-b)",
-       configs={"quick": ["pinned", "native"], "thorough": ["pinned", "debug", "native", "v3"]})
+       configs={"quick": ["pinned", "native"], "thorough": ["pinned", "debug", "native", "bmi"]})
 scalar("C12", "all triples (stored value, width, amount) with stored value and target sum over the boundary alphabet "
               "(every sum on, below and above every width boundary upward and downward, every signed-overflow edge) "
               "x {grow, no-grow} x {tagged, external}; class = (family, mode, old width, new width, outcome)",
        "E-enum over triples against int64 reference arithmetic; slot followed by canaries and a guard page",
-       configs={"quick": ["pinned", "debug", "native"], "thorough": ["pinned", "debug", "asan", "native", "v3"]})
+       configs={"quick": ["pinned", "debug", "native"], "thorough": ["pinned", "debug", "asan", "native", "bmi"]})
 
 HOOK_COMMITS = []
 
@@ -148,8 +153,8 @@ ARRAY_RULE = ("every array of the corpus A (S1: all arrays of length 1-3 over a 
 def arrays(prop, expl, rule_extra="", dl_quick=150, dl_thorough=1800, configs=None):
     CHECKS[prop] = dict(
         name="arrays", harness=["checks/arrays.c", "engine/vmalloc.c"], libs=LIBS_ALL, wrap_malloc=True,
-        configs=configs or {"quick": ["pinned", "native"], "thorough": ["pinned", "native", "asan", "debug", "v2", "v3"]},
-        shards={"pinned": 16, "native": 16, "asan": 16, "debug": 16, "v2": 16, "v3": 16},
+        configs=configs or {"quick": ["pinned", "native"], "thorough": ["pinned", "native", "asan", "debug", "v2", "bmi"]},
+        shards={"pinned": 16, "native": 16, "asan": 16, "debug": 16, "v2": 16, "bmi": 16},
         deadline={"quick": dl_quick, "thorough": dl_thorough},
         rule=ARRAY_RULE + rule_extra, explanation=expl,
         assumptions=["oracle is the input array itself / ground truth recomputed by the harness",
@@ -161,7 +166,7 @@ arrays("C02", "E-enum: encode, copy the reported bytes into an exact-size guard-
               "compare with the input; every random-access / block reader compared with the full decode at every index")
 arrays("C03", "E-enum: the encoder's destination is a guard-page buffer of exactly the advertised size, so a write one byte "
               "past it faults; returned length <= advertised (== where documented exact)")
-arrays("C13", configs={"quick": ["pinned"], "thorough": ["pinned", "native", "asan", "v2", "v3"]}, expl="E-enum over (valid encoding, capacity c in 0..n): the output buffer holds exactly c elements before a "
+arrays("C13", configs={"quick": ["pinned"], "thorough": ["pinned", "native", "asan", "v2", "bmi"]}, expl="E-enum over (valid encoding, capacity c in 0..n): the output buffer holds exactly c elements before a "
               "PROT_NONE page; library-internal blocks carry redzones; result must be 0 or a correct prefix",
        rule_extra="; x every capacity 0..n (n <= 385 quick, 4097 thorough)")
 arrays("C16", "E-enum: every metadata field and header accessor named by the property compared with ground truth "
@@ -196,7 +201,7 @@ CHECKS["C08"] = dict(
 CHECKS["C14"] = dict(
     name="c14", harness=["checks/c14.c", "engine/vmalloc.c"], wrap_malloc=True,
     libs=LIBS_ALL,
-    configs={"quick": ["pinned", "asan"], "thorough": ["pinned", "asan", "debug", "native", "v3"]},
+    configs={"quick": ["pinned", "asan"], "thorough": ["pinned", "asan", "debug", "native", "bmi"]},
     shards={"pinned": 16, "asan": 16, "debug": 16},
     deadline={"quick": 150, "thorough": 1800},
     rule="byte-string alphabet B: all strings of length 0-2 over all 256 byte values, all strings of length 3-4 (quick) / "
@@ -215,7 +220,7 @@ CHECKS["C14"] = dict(
 
 CHECKS["C09"] = dict(
     name="packed", harness=["checks/packed.c"], libs=LIBS_ALL, engine="E-enum + E-bfs",
-    configs={"quick": ["pinned", "debug", "native"], "thorough": ["pinned", "debug", "asan", "native", "v3"]},
+    configs={"quick": ["pinned", "debug", "native"], "thorough": ["pinned", "debug", "asan", "native", "bmi"]},
     shards={"pinned": 16, "debug": 16, "asan": 16},
     deadline={"quick": 150, "thorough": 1500},
     rule="120 instantiations generated from src/varintPacked.h (every width 1-32 x slot type 8/16/32/64 with width <= slot + "
@@ -234,7 +239,7 @@ CHECKS["C09"] = dict(
 
 CHECKS["C11"] = dict(
     name="bitstream", harness=["checks/bitstream.c", "checks/bitstream32.c"], libs=LIBS_ALL,
-    configs={"quick": ["pinned", "debug", "native"], "thorough": ["pinned", "debug", "asan", "native", "v3"]},
+    configs={"quick": ["pinned", "debug", "native"], "thorough": ["pinned", "debug", "asan", "native", "bmi"]},
     shards={"pinned": 16, "debug": 16, "asan": 16},
     deadline={"quick": 120, "thorough": 1200},
     rule="both supported word types (uint64_t default, uint32_t via VBITS/VBITSVAL) x every bit offset in [0, 3W) x every "
@@ -250,7 +255,7 @@ CHECKS["C11"] = dict(
 CHECKS["C10"] = dict(
     name="dimension", harness=["checks/dimension.c"], libs=LIBS_ALL,
     engine="E-enum + E-bfs",
-    configs={"quick": ["pinned", "native"], "thorough": ["pinned", "native", "debug", "asan", "v3"]},
+    configs={"quick": ["pinned", "native"], "thorough": ["pinned", "native", "debug", "asan", "bmi"]},
     shards={"pinned": 16, "native": 16, "debug": 16, "asan": 16},
     deadline={"quick": 120, "thorough": 1200},
     rule="headers: all pairs over a 31-value boundary alphabet through Pack/Unpack (function and macro), all 72 (rows width, "
@@ -270,7 +275,7 @@ CHECKS["C10"] = dict(
 CHECKS["C07"] = dict(
     name="floatc", harness=["checks/floatc.c", "engine/vmalloc.c"], wrap_malloc=True,
     libs=LIBS_ALL,
-    configs={"quick": ["pinned", "debug", "native"], "thorough": ["pinned", "debug", "asan", "native", "v2", "v3"]},
+    configs={"quick": ["pinned", "debug", "native"], "thorough": ["pinned", "debug", "asan", "native", "v2", "bmi"]},
     shards={"pinned": 16, "debug": 16, "asan": 16},
     deadline={"quick": 150, "thorough": 1500},
     rule="double alphabet D = {sign} x {20 biased exponents incl. 0, 1, 1022-1024, 2046, 2047} x {~200 mantissas: 0, 1, all-ones, "
